@@ -5,5 +5,5 @@ THEOREMS = []
 TRUSTED = []
 ASSUMPTIONS = []
 LEVEL_TEXT = 'Lean theorems about the word-level inverse/division primitives (all 64-bit words), the single-limb division kernels (all lengths) and the rounding/sign/adjust logic of every mpz division wrapper (all signs, d=0 cases); models run against the rebuilt library with dividends constructed backwards from (q,d,r) to hit the rare correction branches.'
-LEVEL_NOTE = "mpn_inv_* (Newton) division and assembly divrem_2 are assumed contracts; assembly kernels by correspondence; mpn_mulmid proved exact in C01 part c01_mulmid."
+LEVEL_NOTE = "mpn_inv_* (Newton) division (mpn_is_invert and the pieces of mpn_inv_div_qr_n are proved, their composition and the other inv_ routines are not) and assembly divrem_2 are assumed contracts; assembly kernels by correspondence; mpn_mulmid proved exact in C01 part c01_mulmid."
 PLACEHOLDER = True
